@@ -1518,6 +1518,12 @@ func (l *Lowerer) wrap(v *Term, t types.Type) *Term {
 		return v
 	}
 	if w := wrapFn(t); w != "" {
+		if l.topCt != nil && l.topCt.MathInts && (w == "wrap64" || w == "wrapint") {
+			// contract option math_ints: int/int64 arithmetic of this function is treated as mathematical
+			// (no 2^63 wrap-around); reported as an assumption
+			l.note("A-mathint: int and int64 arithmetic of this function is treated as mathematical (contract option math_ints)")
+			return v
+		}
 		return App(w, "Int", v)
 	}
 	return v
@@ -1700,7 +1706,15 @@ func (l *Lowerer) intBinop(op token.Token, a, b *Term, rt types.Type, node ast.N
 		return l.wrap(App("tdiv", "Int", a, b), rt)
 	case token.REM:
 		l.safety("div", l.exprText(node), node, Not(Eq(b, IntLit(0))))
-		return App("trem", "Int", a, b)
+		r := App("trem", "Int", a, b)
+		if _, lit := litInt(b); !lit && !l.spec && !hasBound(a) && !hasBound(b) {
+			// the solvers do not derive the range of a remainder by a symbolic divisor (non-linear): state it
+			savedGuard := l.guard
+			l.guard = nil
+			l.assume(Implies(And(Le(IntLit(0), a), Lt(IntLit(0), b)), And(Le(IntLit(0), r), Lt(r, b))))
+			l.guard = savedGuard
+		}
+		return r
 	case token.AND:
 		// x & (2^k - 1) == x mod 2^k (two's complement, also for negative x)
 		if m, ok := litInt(b); ok {
